@@ -34,12 +34,17 @@ class Props:
 
         for key, val in self._registry.items():
             other_val = other.get(key)
-            if val != other_val:
+            if val != other_val and not _both_nan(val, other_val):
                 return False
 
         for key, other_val in other._registry.items():
             val = self.get(key)
-            if other_val != val:
+            if other_val != val and not _both_nan(other_val, val):
                 return False
 
         return True
+
+
+def _both_nan(a: Any, b: Any) -> bool:
+    # nan is unequal to itself; two nan parameters are the same declaration
+    return isinstance(a, float) and isinstance(b, float) and (a != a) and (b != b)
